@@ -70,6 +70,35 @@ Theorem sds_interfaces_agree_partial : forall v st', var_ok v ->
 Proof. exact sds_readers_agree. Qed.
 Print Assumptions sds_interfaces_agree_partial.
 
+(* ---- record dimensions and dimension scales in the older records ---------------------------------------- *)
+(** the NDG of a record variable of an HDF file shows the variable's own record count, whatever the file-wide
+    record count (other record variables) is *)
+Theorem ndg_shows_own_record_count : forall shape vrecs hrecs nt dref ref ndgref st',
+  let v := mkVar (ndg_dims true shape vrecs hrecs) nt dref ref ndgref in
+  var_ok v ->
+  ndg_view (sd_write_var v ++ st') (sd_ndg_members v) =
+  Some (zlen shape, effective_dims shape vrecs, shown_nt nt, dref).
+Proof. exact ndg_view_record_variable. Qed.
+Print Assumptions ndg_shows_own_record_count.
+
+(** the scales record: for every subset of the dimensions that carries a scale, the offset walk of hdf_read_ndgs and
+    the sequential read of DFSDIgetndg both return exactly the scales DFSDIputndg stored *)
+Theorem scales_record_roundtrip : forall scales sizes,
+  Forall2 scale_fits scales sizes ->
+  sd_read_scales sizes (sds_encode scales) = scales /\ dfsd_read_scales sizes (sds_encode scales) = scales.
+Proof. exact (fun sc sz H => conj (sds_roundtrip_sd sc sz H) (sds_roundtrip_dfsd sc sz H)). Qed.
+Print Assumptions scales_record_roundtrip.
+
+Theorem record_and_scale_code_as_modelled :
+  hdf_write_var_recdim =
+    "if (val == NC_UNLIMITED) { if (handle->file_type == HDF_FILE) val = (*var)->numrecs; else val = handle->numrecs; }"%string /\
+  hdf_read_ndgs_scale_start = "scale_offset = rank * sizeof(uint8)"%string /\
+  hdf_read_ndgs_scale_walk =
+    "if ((scalebuf) && (scalebuf[dim])) { vars[current_var]->numrecs = dimsizes[dim]; vars[current_var]->data_offset = scale_offset; scale_offset += dimsizes[dim] * DFKNTsize(scaletypes[dim]); } else { vars[current_var]->data_offset = -1; }"%string /\
+  NC_UNLIMITED = 0.
+Proof. exact source_tie_record_and_scales. Qed.
+Print Assumptions record_and_scale_code_as_modelled.
+
 (* ---- raster-image groups ---------------------------------------------------------------------------- *)
 Theorem dfr8_group_read_by_dfr8_and_df24 : forall m st', ri_ok m -> ri_ncomp m = 1 ->
   dfr8_view (dfr8_put m ++ st') (dfr8_members m) = Some (rview_of m (ri_il m)) /\
@@ -126,6 +155,17 @@ Example ex_var_views :
   dfsd_view (dfsd_put ex_var) [(DFTAG_SD, 5); (DFTAG_SDD, 7)] = Some (2, [2; 3], 16408, 5) /\
   sdd_encode hdf_write_var_SDD (sd_sdd ex_var) = [0; 2; 0; 0; 0; 2; 0; 0; 0; 3; 0; 106; 0; 7; 0; 106; 0; 7; 0; 106; 0; 7].
 Proof. vm_compute. repeat split; reflexivity. Qed.
+
+Example ex_scales :
+  Forall2 scale_fits [None; Some [7; 8]; None; Some [9; 10; 11; 12]] [6; 2; 3; 4] /\
+  sds_encode [None; Some [7; 8]; None; Some [9; 10; 11; 12]] = [0; 1; 0; 1; 7; 8; 9; 10; 11; 12] /\
+  scale_offsets [6; 2; 3; 4] [0; 1; 0; 1] 4 = [None; Some 4; None; Some 6] /\
+  ndg_dims true [0; 3] 2 5 = [2; 3] /\ ndg_dims false [0; 3] 2 5 = [5; 3] /\
+  var_ok (mkVar (ndg_dims true [0; 3] 2 5) DFNT_INT16 4 6 8).
+Proof.
+  repeat split; try reflexivity; try (repeat constructor; fail); try (cbn; lia); try discriminate;
+    try (repeat constructor; cbn; lia); try (vm_compute; tauto).
+Qed.
 
 Definition ex_img : rimage := mkRi 4 3 1 DFNT_UINT8 2 DFTAG_RI 2 0 3 1.
 Example ex_img_ok : ri_ok ex_img /\ gr_compat ex_img = true /\ id_ok (ri_id ex_img) /\ sdd_ok (sd_sdd ex_var).
